@@ -83,7 +83,7 @@ def problem(rng, kind=None, n=None):
         w = rng.uniform(2.0, 7.0, n)
 
         def f(x):
-            return float(np.sum(np.sin(w * x) + 0.1 * x * x))
+            return np.sum(np.sin(w * x) + 0.1 * x * x)
 
         def g(x):
             return w * np.cos(w * x) + 0.2 * x
@@ -98,25 +98,27 @@ def problem(rng, kind=None, n=None):
     b = rng.normal(size=n) * 3
     if kind in ("qp", "badscale"):
         def f(x):
-            return float(0.5 * x @ Q @ x - b @ x)
+            return 0.5 * x @ Q @ x - b @ x
 
         def g(x):
             return Q @ x - b
     elif kind == "qp4":
         def f(x):
-            return float(0.5 * x @ Q @ x - b @ x + 0.25 * np.sum(x ** 4))
+            return 0.5 * x @ Q @ x - b @ x + 0.25 * np.sum(x ** 4)
 
         def g(x):
             return Q @ x - b + x ** 3
     else:
         def f(x):
-            return float(0.5 * x @ Q @ x - b @ x + np.sum(np.logaddexp(0.0, x)))
+            return 0.5 * x @ Q @ x - b @ x + np.sum(np.logaddexp(0.0, x))
 
         def g(x):
             return Q @ x - b + 1.0 / (1.0 + np.exp(-x))
     xs = np.linalg.solve(Q, b)
     lb, ub = make_box(rng, n, xs * rng.choice([0.0, 1.0]))
-    return Problem(kind, n, f, g, lb, ub, start_in(rng, lb, ub), convex=True)
+    pr = Problem(kind, n, f, g, lb, ub, start_in(rng, lb, ub), convex=True)
+    pr.L = float(cond)
+    return pr
 
 
 # ------------------------------------------------------------------------------------------------ monitored run
@@ -317,6 +319,8 @@ def clause_C14_inputs(p, kw_before, kw, fails):
 # ------------------------------------------------------------------------------------------------ scenarios
 def run_once(p, kw, rec):
     try:
+        if kw.get("callback") is None and "callback" in kw:
+            kw = {k: v for k, v in kw.items() if k != "callback"}
         return minimize_lbfgsb(**{k: v for k, v in kw.items() if not k.startswith("_")}), None
     except Exception as e:      # noqa: BLE001
         return None, e
@@ -574,6 +578,422 @@ def scenario_faults(rng, props, fails, stats):
     return describe(p, kw)
 
 
+def scenario_linesearch(rng, props, fails, stats):
+    """C11: the real line_search on a feasible start and a projected-gradient direction."""
+    from lbfgsb.linesearch import line_search, max_allowed_steplength
+    from lbfgsb.scalar_function import prepare_scalar_function
+    p = problem(rng, kind=rng.choice(["osc", "rosen", "qp", "qp4"]))
+    rec = Rec(p)
+    x0 = p.x0.copy()
+    g0 = p.g(x0.copy())
+    t = 10 ** rng.uniform(-3, 1)
+    d = np.clip(x0 - t * g0, p.lb, p.ub) - x0
+    if not np.any(d != 0):
+        return describe(p, {})
+    cap = int(rng.integers(1, 21))
+    above = int(rng.choice([0, 1, 7]))
+    boxed = bool(np.all(np.isfinite(p.lb)) and np.all(np.isfinite(p.ub)))
+    sf = prepare_scalar_function(rec.fun, x0, jac=rec.jac, bounds=(p.lb, p.ub))
+    f0 = sf.fun(x0)
+    g = sf.grad(x0)
+    nb = len(rec.fpts)
+    try:
+        stp = line_search(x0, f0, g, d, p.lb, p.ub, above, 1e8, boxed, sf, max_iter=cap)
+    except Exception as e:       # noqa: BLE001
+        fails.append(("C11", f"line_search raised {type(e).__name__}: {e}"))
+        return describe(p, {"cap": cap})
+    stats["runs"] += 1
+    stats["nontrivial"] += int(stp is not None)
+    for x in rec.fpts + rec.gpts:
+        if not (np.all(x >= p.lb) and np.all(x <= p.ub)):
+            fails.append(("C11", "line search evaluated a point outside the box"))
+            break
+    if len(rec.fpts) - nb > cap:
+        fails.append(("C11", f"{len(rec.fpts) - nb} objective evaluations with a cap of {cap}"))
+    if stp is not None:
+        smax = max_allowed_steplength(x0, d, p.lb, p.ub, 1e8, above)
+        if not (0 < stp <= smax):
+            fails.append(("C11", f"step {stp!r} not in (0, {smax!r}]"))
+        fv = p.f(np.clip(x0 + stp * d, p.lb, p.ub))
+        if not fv < f0:
+            fails.append(("C11", f"returned step is not strictly downhill: {f0!r} -> {fv!r}"))
+    return describe(p, {"cap": cap, "above_iter": above})
+
+
+def scenario_restart_equiv(rng, props, fails, stats):
+    """C06: stop at k by maxiter, restart -> same pairs with zero iterations, same next iterate as uninterrupted."""
+    p = problem(rng, kind=rng.choice(["qp", "qp4", "rosen", "softplus"]))
+    its = []
+    kw = dict(x0=p.x0.copy(), fun=p.f, jac=p.g, bounds=p.bounds(), maxcor=int(rng.integers(1, 7)), ftol=0.0, gtol=1e-12,
+              maxfun=10000)
+    K = int(rng.integers(2, 9))
+    full, exc = run_once(p, dict(kw, maxiter=K, callback=lambda x, s: its.append((x.copy(), copy.deepcopy(s))) or False), None)
+    stats["runs"] += 1
+    if exc is not None or full.nit < 2 or not full.message.startswith("STOP: TOTAL NO. of ITER"):
+        return describe(p, kw)
+    k = int(rng.integers(1, full.nit))
+    a, _ = run_once(p, dict(kw, maxiter=k), None)
+    if a is None or a.nit != k:
+        return describe(p, kw)
+    stats["nontrivial"] += 1
+    z, _ = run_once(p, dict(kw, x0=a.x.copy(), checkpoint=a, maxiter=k), None)
+    def close(u, v):
+        return u.shape == v.shape and np.allclose(u, v, rtol=1e-9, atol=1e-9 * max(1.0, float(np.max(np.abs(v), initial=0))))
+    if z is None or not (close(z.hess_inv.sk, a.hess_inv.sk) and close(z.hess_inv.yk, a.hess_inv.yk)):
+        fails.append(("C06", "a restart that performs no iteration does not return the checkpoint's correction pairs"))
+    mc2 = int(rng.choice([kw["maxcor"], max(1, kw["maxcor"] - 1)]))
+    chain = a
+    for step in range(int(rng.integers(1, 4))):
+        if chain.nit >= full.nit:
+            break
+        nxt, exc = run_once(p, dict(kw, x0=chain.x.copy(), checkpoint=chain, maxiter=chain.nit + 1, maxcor=mc2), None)
+        if exc is not None:
+            fails.append(("C06", f"restart raised {type(exc).__name__}: {exc}"))
+            return describe(p, kw)
+        if mc2 == kw["maxcor"]:
+            ref = its[nxt.nit - 1][0] if nxt.nit - 1 < len(its) else None
+            if ref is not None and nxt.nit == chain.nit + 1:
+                err = np.max(np.abs(nxt.x - ref)) / max(1.0, np.max(np.abs(ref)))
+                if err > 1e-7:
+                    fails.append(("C06", f"iterate {nxt.nit} after a restart at {chain.nit} differs from the "
+                                         f"uninterrupted run by {err:.2e} (relative)"))
+                    break
+        else:
+            if nxt.hess_inv.sk.shape[0] > mc2:
+                fails.append(("C06", "restart with reduced maxcor keeps more than maxcor pairs"))
+        chain = nxt
+    return describe(p, kw)
+
+
+def scenario_update_identity(rng, props, fails, stats):
+    """C13: identity update function == no update function (bit for bit); rewritten gradients -> genuine pairs."""
+    p = problem(rng)
+    rec = Rec(p)
+    kw = base_kwargs(rng, p, rec)
+    if rng.random() < 0.5:
+        kw["ftarget"] = float(p.f(p.x0) - abs(rng.normal()) * 3)
+    kw["ftol"] = float(rng.choice([0.0, 1e-10, 1e-2, 10.0]))
+    a, ea = run_once(p, kw, rec)
+    rec2 = Rec(p)
+    kw2 = dict(kw, fun=rec2.fun, jac=rec2.jac, update_fun_def=lambda x, f0, f0_old, g, X, G: (f0, f0_old, g, G))
+    b, eb = run_once(p, kw2, rec2)
+    stats["runs"] += 2
+    if ea is not None or eb is not None:
+        if (ea is None) != (eb is None):
+            fails.append(("C13", f"only one of the two runs raised: {ea!r} / {eb!r}"))
+        return describe(p, kw)
+    stats["nontrivial"] += int(a.nit > 0)
+    k = same_state(snap(a), snap(b)) or (None if a.message == b.message else "message")
+    if k:
+        fails.append(("C13", f"identity update function changed the run: field {k} ({snap(a)[k]!r} vs {snap(b)[k]!r})"))
+    # rewriting update function: rescale every stored gradient at iteration j -> pairs are differences of rewritten G
+    j = int(rng.integers(1, 5))
+    calls = [0]
+    last = {}
+
+    def upd(x, f0, f0_old, g, X, G):
+        calls[0] += 1
+        if calls[0] == j + 1:
+            w = float(rng.uniform(0.3, 3.0))
+            flip = rng.random() < 0.5
+            from collections import deque as dq
+            G2 = dq([(-gi if (flip and i % 2 == 0 and i < len(G) - 1) else gi) * w for i, gi in enumerate(G)])
+            last["G"] = [np.array(gi, copy=True) for gi in G2]
+            last["X"] = [np.array(xi, copy=True) for xi in X]
+            return f0 * w, f0 * w, g * w, G2
+        return f0, f0_old, g, G
+    rec3 = Rec(p)
+    kw3 = dict(kw, fun=rec3.fun, jac=rec3.jac, update_fun_def=upd, maxiter=j + 1, ftol=1e300, ftarget=None)
+    c, ec = run_once(p, kw3, rec3)
+    stats["runs"] += 1
+    if ec is None and c is not None and c.hess_inv.sk.size and "G" in last and c.nit == j:
+        sy = np.einsum("ij,ij->i", np.atleast_2d(c.hess_inv.sk), np.atleast_2d(c.hess_inv.yk))
+        if np.any(sy <= 0):
+            fails.append(("C13", "result carries a correction pair with s.y <= 0 after the gradients were rewritten"))
+        yk = np.atleast_2d(c.hess_inv.yk)
+        GG = last["G"]
+        for row in yk:
+            if not any(np.array_equal(GG[b2] - GG[a2], row) for a2 in range(len(GG)) for b2 in range(a2 + 1, len(GG))):
+                fails.append(("C13", "a returned pair is not a difference of the rewritten gradients"))
+                break
+    return describe(p, kw)
+
+
+def scenario_fd(rng, props, fails, stats):
+    """C16: finite-difference modes with active bounds: no exception, stencil inside the box, value close to exact."""
+    p = problem(rng, kind=rng.choice(["qp", "qp4", "softplus"]))
+    if np.any(p.lb == p.ub):
+        return describe(p, {})           # degenerate sides with FD: known finding KF1 (checked by C04's clause)
+    mode = rng.choice([None, "2-point", "3-point", "cs"])
+    if mode == "cs" and p.name == "softplus":
+        mode = "3-point"
+    rec = Rec(p)
+    kw = dict(x0=p.x0.copy(), fun=rec.fun, jac=mode, bounds=p.bounds(), maxcor=int(rng.integers(1, 8)), maxiter=200,
+              maxfun=20000, ftol=1e-12, gtol=1e-7)
+    res, exc = run_once(p, kw, rec)
+    stats["runs"] += 1
+    if exc is not None:
+        fails.append(("C16", f"finite-difference run ({mode}) raised {type(exc).__name__}: {exc}"))
+        return describe(p, kw)
+    stats["nontrivial"] += int(res.nit > 0)
+    for x in rec.fpts:
+        xr = np.real(x)
+        if not (np.all(xr >= p.lb) and np.all(xr <= p.ub)):
+            fails.append(("C16", f"stencil/evaluation point outside the box ({mode})"))
+            break
+    if res.nfev != len(rec.fpts):
+        fails.append(("C16", f"nfev={res.nfev} but {len(rec.fpts)} objective evaluations (incl. stencil) were made"))
+    ex, _ = run_once(p, dict(kw, fun=p.f, jac=p.g), None)
+    if ex is not None and ex.message.startswith("CONVERGENCE: NORM") and res.message.startswith("CONVERGENCE"):
+        tol = 1e-5 if mode in (None, "2-point") else 1e-7
+        if res.fun - ex.fun > tol * max(1.0, abs(ex.fun)):
+            fails.append(("C16", f"FD solution ({mode}) worse than the exact-gradient solution by {res.fun - ex.fun:.2e}"))
+    return describe(p, kw)
+
+
+def scenario_kkt(rng, props, fails, stats):
+    """C01: strictly convex box problems reach a first-order point when limited only by gtol."""
+    p = problem(rng, kind=rng.choice(["qp", "qp4", "softplus"]), n=int(rng.integers(1, 13)))
+    gtol = 1e-6
+    kw = dict(x0=p.x0.copy(), fun=p.f, jac=p.g, bounds=p.bounds(), maxcor=int(rng.integers(1, 11)), ftol=0.0, gtol=gtol,
+              maxiter=5000, maxfun=100000)
+    res, exc = run_once(p, kw, None)
+    stats["runs"] += 1
+    if exc is not None:
+        fails.append(("C01", f"run raised {type(exc).__name__}: {exc}"))
+        return describe(p, kw)
+    stats["nontrivial"] += int(res.nit > 0)
+    pg = pg_norm(res.x, p.g(res.x.copy()), p.lb, p.ub)
+    # level of the floating-point resolution of the objective: a decrease pg^2/(2L) below eps*|f| cannot be observed
+    L = getattr(p, "L", 1.0) * (1.0 + 3.0 * float(np.max(np.abs(res.x))) ** 2)
+    resolution = math.sqrt(2.0 * L * np.finfo(float).eps * max(1.0, abs(p.f(res.x.copy()))))
+    if not pg <= 10 * max(gtol, resolution):
+        fails.append(("C01", f"projected gradient {pg:.3e} at the returned point (gtol={gtol}, message {res.message!r}, "
+                             f"nit={res.nit})"))
+    return describe(p, kw)
+
+
+def scenario_scipy(rng, props, fails, stats):
+    """C12: unconstrained problems - same evaluation points as SciPy's L-BFGS-B while no documented deviation fires."""
+    from scipy.optimize import minimize
+    kind = rng.choice(["qp4", "softplus", "rosen"])
+    n = int(rng.integers(2, 9))
+    p = problem(rng, kind=kind, n=n)
+    p.lb[:] = -np.inf
+    p.ub[:] = np.inf
+    x0 = rng.uniform(-1.5, 1.5, p.n)
+    m = int(rng.integers(1, 9))
+    mine, ref = [], []
+
+    def f1(x):
+        mine.append(x.copy())
+        return p.f(x)
+
+    def f2(x):
+        ref.append(x.copy())
+        return p.f(x)
+    r1, exc = run_once(p, dict(x0=x0.copy(), fun=f1, jac=p.g, maxcor=m, maxiter=12, ftol=0.0, gtol=1e-9, maxfun=500), None)
+    r2 = minimize(f2, x0.copy(), jac=p.g, method="L-BFGS-B", options=dict(maxcor=m, maxiter=12, ftol=0.0, gtol=1e-9,
+                                                                          maxfun=500, maxls=20))
+    stats["runs"] += 1
+    if exc is not None:
+        fails.append(("C12", f"run raised {type(exc).__name__}: {exc}"))
+        return describe(p, {})
+    # documented deviation 1/3: the very first trial (first-iteration step cap / unit first step) may differ; compare
+    # sequences only when the first two evaluation points agree, and stop at the first line search with >1 trials in
+    # either run after which 'lowest trial instead of last' may select differently
+    L = min(len(mine), len(ref))
+    if L < 3 or np.max(np.abs(mine[1] - ref[1])) > 1e-8 * max(1.0, np.max(np.abs(ref[1]))):
+        return describe(p, {})
+    stats["nontrivial"] += 1
+    for i in range(L):
+        err = np.max(np.abs(mine[i] - ref[i])) / max(1.0, np.max(np.abs(ref[i])))
+        if err > 1e-6:
+            # deviation 2: a multi-trial line search happened before -> not comparable any further
+            multi = any(np.allclose(mine[j] - mine[j - 1], 0) for j in range(1, i))
+            fvals = [p.f(x) for x in mine[:i + 1]]
+            nonmono = any(fvals[j] > fvals[j - 1] for j in range(1, len(fvals)))
+            if not nonmono and not multi:
+                fails.append(("C12", f"evaluation point #{i} differs from SciPy's L-BFGS-B by {err:.2e} (relative) with "
+                                     f"no deviation trigger before it"))
+            break
+    return describe(p, {"maxcor": m})
+
+
+def _memory(rng, n, m, convex=True):
+    """real LBFGSB_MATRICES built by the real update_lbfgs_matrices from m accepted pairs (plus rejected candidates)"""
+    from collections import deque
+    from lbfgsb.bfgsmats import LBFGSB_MATRICES, update_lbfgs_matrices
+    A = rng.normal(size=(n, n))
+    H = A @ A.T + np.eye(n) * rng.uniform(0.1, 2.0)
+    X, G = deque([rng.normal(size=n)]), deque()
+    G.append(H @ X[0])
+    mats = LBFGSB_MATRICES(n)
+    maxcor = max(1, m)
+    log = []
+    for k in range(m + int(rng.integers(0, 3))):
+        xk = X[-1] + rng.normal(size=n) * 10 ** rng.uniform(-2, 0)
+        gk = H @ xk
+        if rng.random() < 0.25:
+            gk = G[-1] - (gk - G[-1])          # negative curvature candidate -> must be rejected
+        before = (len(X), [a.copy() for a in X], mats.theta, mats.W.copy())
+        mats = update_lbfgs_matrices(xk.copy(), gk.copy(), X, G, maxcor, mats, False)
+        log.append((before, len(X)))
+    return mats, X, G, maxcor, log
+
+
+def _dense_B(mats, n):
+    from lbfgsb.bfgsmats import bmv
+    if not mats.use_factor:
+        return mats.theta * np.eye(n)
+    q = mats.W.shape[1]
+    M = np.column_stack([bmv(mats.invMfactors, e) for e in np.eye(q)])
+    return mats.theta * np.eye(n) - mats.W @ M @ mats.W.T
+
+
+def scenario_bfgs(rng, props, fails, stats):
+    """C10: compact matrix == dense BFGS recursion over the stored pairs; SPD; secant; memory discipline."""
+    n, m = int(rng.integers(1, 13)), int(rng.integers(1, 11))
+    mats, X, G, maxcor, log = _memory(rng, n, m)
+    stats["runs"] += 1
+    S = np.diff(np.array(X), axis=0)
+    Y = np.diff(np.array(G), axis=0)
+    if len(S) == 0:
+        return {"n": n, "m": m}
+    stats["nontrivial"] += 1
+    if len(S) > maxcor:
+        fails.append(("C10", f"{len(S)} pairs stored with maxcor={maxcor}"))
+    eps = 2.2e-16
+    if np.any(np.einsum("ij,ij->i", S, Y) <= eps * np.einsum("ij,ij->i", Y, Y)):
+        fails.append(("C10", "a stored pair violates the curvature condition"))
+    B = _dense_B(mats, n)
+    theta = (Y[-1] @ Y[-1]) / (S[-1] @ Y[-1])
+    Bd = theta * np.eye(n)
+    for s_, y_ in zip(S, Y):
+        Bs = Bd @ s_
+        Bd = Bd - np.outer(Bs, Bs) / (s_ @ Bs) + np.outer(y_, y_) / (y_ @ s_)
+    tol = 1e-7 * max(1.0, np.linalg.cond(Bd)) * np.max(np.abs(Bd))
+    if np.max(np.abs(B - Bd)) > tol:
+        fails.append(("C10", f"compact matrix differs from the dense BFGS recursion by {np.max(np.abs(B - Bd)):.2e}"))
+    elif np.min(np.linalg.eigvalsh(0.5 * (B + B.T))) <= 0:
+        fails.append(("C10", "limited-memory matrix is not positive definite"))
+    elif np.max(np.abs(B @ S[-1] - Y[-1])) > tol * 10:
+        fails.append(("C10", "secant equation violated for the newest pair"))
+    return {"n": n, "m": m, "pairs": len(S)}
+
+
+def scenario_cauchy(rng, props, fails, stats):
+    """C08: the real get_cauchy_point against an independent piecewise search on the dense model."""
+    from lbfgsb.cauchy import get_cauchy_point
+    n = int(rng.integers(1, 11))
+    m = int(rng.integers(0, 6))
+    mats, X, G, maxcor, _ = _memory(rng, n, m)
+    lb, ub = make_box(rng, n, None)
+    x = start_in(rng, lb, ub)
+    g = rng.normal(size=n) * 10 ** rng.uniform(-1, 1)
+    g[rng.random(n) < 0.15] = 0.0
+    if pg_norm(x, g, lb, ub) == 0:
+        return {"n": n}
+    B = _dense_B(mats, n)
+    stats["runs"] += 1
+    x0, g0 = x.copy(), g.copy()
+    xcp, c = get_cauchy_point(x, g, lb, ub, mats, 1 if m else 0, -1, None)
+    if not (np.array_equal(x, x0) and np.array_equal(g, g0)):
+        fails.append(("C08", "get_cauchy_point modified its arguments"))
+    if not (np.all(xcp >= lb) and np.all(xcp <= ub)):
+        fails.append(("C08", "Cauchy point outside the box"))
+        return {"n": n}
+    with np.errstate(divide="ignore", invalid="ignore"):
+        t = np.where(g < 0, (x - ub) / g, np.where(g > 0, (x - lb) / g, np.inf))
+    bps = sorted(set(v for v in t if v > 0 and np.isfinite(v)))
+    if len(set(np.round(np.array(bps), 12))) != len(bps):
+        return {"n": n}                           # ties: only feasibility / decrease are claimed
+    stats["nontrivial"] += 1
+    prev, tstar = 0.0, None
+    for b in bps + [np.inf]:
+        d = np.where(t > prev, -g, 0.0)
+        xp = np.clip(x - prev * g, lb, ub)
+        fp = g @ d + d @ B @ (xp - x)
+        fpp = d @ B @ d
+        if fpp <= 0:
+            tstar = prev
+            break
+        dt = -fp / fpp
+        if fp >= 0:
+            tstar = prev
+            break
+        if prev + dt < b:
+            tstar = prev + dt
+            break
+        prev = b
+    if tstar is None:
+        tstar = prev
+    ref = np.clip(x - tstar * g, lb, ub)
+    scale = max(1.0, float(np.max(np.abs(ref))))
+    if np.max(np.abs(xcp - ref)) > 1e-6 * scale * max(1.0, np.linalg.cond(B)) ** 0.5:
+        fails.append(("C08", f"Cauchy point differs from the first local minimiser on the projected path by "
+                             f"{np.max(np.abs(xcp - ref)):.2e}"))
+    pinned = (t <= tstar * (1 - 1e-9)) & (g != 0)
+    if np.any(pinned & (xcp != lb) & (xcp != ub)):
+        fails.append(("C08", "a variable that reached its bound is not exactly on it"))
+    mval = g @ (xcp - x) + 0.5 * (xcp - x) @ B @ (xcp - x)
+    if mval > 1e-10 * max(1.0, abs(g @ g)):
+        fails.append(("C08", f"model value at the Cauchy point is larger than at x ({mval:.2e})"))
+    if np.any((xcp != lb) & (xcp != ub)) and np.max(np.abs(c - mats.W.T @ (xcp - x))) > 1e-7 * max(1.0, np.max(np.abs(c))):
+        fails.append(("C08", "auxiliary vector is not W^T (x_cp - x)"))
+    return {"n": n, "m": m}
+
+
+def scenario_subspace(rng, props, fails, stats):
+    """C09: the real subspace step against a dense solve of the reduced Newton system."""
+    from lbfgsb.cauchy import get_cauchy_point
+    from lbfgsb.subspacemin import get_freev, subspace_minimization
+    n = int(rng.integers(1, 11))
+    m = int(rng.integers(0, 6))
+    mats, X, G, maxcor, _ = _memory(rng, n, m)
+    lb, ub = make_box(rng, n, None)
+    x = start_in(rng, lb, ub)
+    g = rng.normal(size=n) * 10 ** rng.uniform(-1, 1)
+    if pg_norm(x, g, lb, ub) == 0:
+        return {"n": n}
+    B = _dense_B(mats, n)
+    xcp, c = get_cauchy_point(x, g, lb, ub, mats, 1 if m else 0, -1, None)
+    fv, Z, A = get_freev(xcp, lb, ub, 1, None, -1, None)
+    xc0 = xcp.copy()
+    xbar = subspace_minimization(x, xcp, fv, Z, A, c, g, lb, ub, mats)
+    stats["runs"] += 1
+    free = np.flatnonzero((xc0 != lb) & (xc0 != ub))
+    if not np.array_equal(np.asarray(fv), free):
+        fails.append(("C09", "free set is not {i : lb_i != xcp_i != ub_i}"))
+        return {"n": n}
+    act = np.setdiff1d(np.arange(n), free)
+    if not np.array_equal(xbar[act], xc0[act]):
+        fails.append(("C09", "a variable on a bound at the Cauchy point moved"))
+    if not (np.all(xbar >= lb - 0) and np.all(xbar <= ub + 0)):
+        if np.max(np.maximum(lb - xbar, xbar - ub)) > 1e-12 * max(1.0, np.max(np.abs(xbar))):
+            fails.append(("C09", "subspace point outside the box"))
+    if len(free) == 0:
+        return {"n": n}
+    stats["nontrivial"] += 1
+    r = (g + B @ (xc0 - x))[free]
+    Bz = B[np.ix_(free, free)]
+    dref = -np.linalg.solve(Bz, r)
+    with np.errstate(divide="ignore", invalid="ignore"):
+        steps = np.where(dref > 0, (ub - xc0)[free] / dref, np.where(dref < 0, (lb - xc0)[free] / dref, np.inf))
+    a = min(1.0, float(np.min(steps)))
+    ref = xc0.copy()
+    ref[free] += a * dref
+    tol = 1e-6 * max(1.0, float(np.max(np.abs(ref)))) * max(1.0, np.linalg.cond(Bz))
+    if np.max(np.abs(xbar - ref)) > tol:
+        fails.append(("C09", f"subspace point differs from the box-truncated Newton point by {np.max(np.abs(xbar - ref)):.2e}"))
+    mod = lambda z: g @ (z - x) + 0.5 * (z - x) @ B @ (z - x)      # noqa: E731
+    if mod(xbar) > mod(xc0) + 1e-9 * max(1.0, abs(mod(xc0))):
+        fails.append(("C09", "subspace step increased the model value"))
+    if g @ (xbar - x) >= 0 and mod(xc0) < 0:
+        fails.append(("C09", "search direction is not a descent direction"))
+    return {"n": n, "m": m, "free": len(free)}
+
+
 def describe(p, kw):
     return {"problem": p.name, "n": p.n, "x0": [float(v) for v in p.x0], "lb": [float(v) for v in p.lb],
             "ub": [float(v) for v in p.ub],
@@ -588,6 +1008,15 @@ SCENARIOS = {
     "determinism": (scenario_determinism, {"C14"}),
     "scaler": (scenario_scaler, {"C17"}),
     "faults": (scenario_faults, {"C20"}),
+    "linesearch": (scenario_linesearch, {"C11"}),
+    "restart_equiv": (scenario_restart_equiv, {"C06"}),
+    "update": (scenario_update_identity, {"C13"}),
+    "fd": (scenario_fd, {"C16"}),
+    "kkt": (scenario_kkt, {"C01"}),
+    "scipy": (scenario_scipy, {"C12"}),
+    "bfgs": (scenario_bfgs, {"C10"}),
+    "cauchy": (scenario_cauchy, {"C08"}),
+    "subspace": (scenario_subspace, {"C09"}),
 }
 
 
